@@ -1,4 +1,1128 @@
+/-
+  Helper lemmas for the planar lattice model (`Model/Lattice/Planar.lean`), shared by C15 / C07 / C02.
+
+  Contents
+  * `par` — parity (XOR) of a list of Booleans, telescoping;
+  * bit-level description of `toggle`, `applyOp`, `site`, `sites` (`getD_sites`: the toggle/bit lemma);
+  * `dot`/`bsp` of a toggled vector (`bsp_applyOp`, `bsp_sites`);
+  * `flatten` is injective on in-bounds sites and lands in `[0, nQubits)` (for `R, C ≥ 2`);
+  * `bsp_sites_sites`: the symplectic product of two site-operators is the parity of the number of
+    common in-bounds sites if their types anticommute, `false` otherwise;
+  * straight runs and paths (`step_vertical`, `run_down`, …, `common_pathSites`, `bsp_pathSites_plaquette`);
+  * `mem_plaquetteIndices`, `nodup_plaquetteIndices`, `translation_exact`, `translation_zero`;
+  * weight of a site-operator (`bsfWt_eq_countP`, `bsfWt_sites_le`, `bsfWt_sites_eq`, `bsfWt_pathSites`);
+  * read-back (`operatorAt_sites`), unit syndromes (`filterMap_zip_unit`), stabilizers / logicals as site-operators.
+-/
 import QecVerif.Model.Lattice.Planar
 import QecVerif.Lemmas.GF2
 namespace Qec.Planar
+open Qec
+
+/-! ### parity of a Boolean list -/
+
+/-- XOR of all entries -/
+def par : List Bool → Bool
+  | [] => false
+  | b :: l => xor b (par l)
+
+@[simp] theorem par_nil : par [] = false := rfl
+@[simp] theorem par_cons (b : Bool) (l : List Bool) : par (b :: l) = xor b (par l) := rfl
+
+theorem par_append (l l' : List Bool) : par (l ++ l') = xor (par l) (par l') := by
+  induction l with
+  | nil => simp
+  | cons b l ih => simp [ih]
+
+theorem par_map_false {α} (l : List α) (f : α → Bool) (h : ∀ a ∈ l, f a = false) : par (l.map f) = false := by
+  induction l with
+  | nil => rfl
+  | cons a l ih =>
+    simp only [List.map_cons, par_cons, h a (by simp), ih (fun b hb => h b (by simp [hb]))]; rfl
+
+theorem par_map_congr {α} (l : List α) (f g : α → Bool) (h : ∀ a ∈ l, f a = g a) :
+    par (l.map f) = par (l.map g) := by
+  rw [List.map_congr_left h]
+
+theorem par_map_xor {α} (l : List α) (f g : α → Bool) :
+    par (l.map fun a => xor (f a) (g a)) = xor (par (l.map f)) (par (l.map g)) := by
+  induction l with
+  | nil => rfl
+  | cons a l ih =>
+    simp only [List.map_cons, par_cons, ih]
+    cases f a <;> cases g a <;> cases par (l.map f) <;> cases par (l.map g) <;> rfl
+
+theorem par_map_and_left {α} (l : List α) (b : Bool) (f : α → Bool) :
+    par (l.map fun a => b && f a) = (b && par (l.map f)) := by
+  induction l with
+  | nil => simp
+  | cons a l ih =>
+    simp only [List.map_cons, par_cons, ih]
+    cases b <;> rfl
+
+/-- telescoping: if the `i`-th entry is `g i ^^ g (i+1)` the parity over `i < k` is `g 0 ^^ g k` -/
+theorem par_range_telescope (k : Nat) (f g : Nat → Bool) (h : ∀ i, i < k → f i = xor (g i) (g (i + 1))) :
+    par ((List.range k).map f) = xor (g 0) (g k) := by
+  induction k with
+  | zero => simp
+  | succ k ih =>
+    rw [List.range_succ, List.map_append, par_append, ih (fun i hi => h i (by omega))]
+    simp only [List.map_cons, List.map_nil, par_cons, par_nil, h k (by omega)]
+    cases g 0 <;> cases g k <;> cases g (k + 1) <;> rfl
+
+/-- in a duplicate-free list the parity of the number of entries equal to `a` is membership -/
+theorem par_map_decide_eq {α} [DecidableEq α] (l : List α) (a : α) (h : l.Nodup) :
+    par (l.map fun b => decide (b = a)) = decide (a ∈ l) := by
+  induction l with
+  | nil => simp
+  | cons b l ih =>
+    rw [List.nodup_cons] at h
+    simp only [List.map_cons, par_cons, ih h.2, List.mem_cons]
+    by_cases hb : b = a
+    · subst hb; simp [h.1]
+    · have : ¬ a = b := fun e => hb e.symm
+      simp [hb, this]
+
+/-! ### toggling bits -/
+
+@[simp] theorem toggle_length (v : BVec) (i : Nat) : (toggle v i).length = v.length := by
+  simp [toggle]
+
+/-- bit `j` after `v[i] ^= 1` -/
+theorem getD_toggle (v : BVec) (i j : Nat) :
+    (toggle v i).getD j false = xor (v.getD j false) (decide (i = j) && decide (j < v.length)) := by
+  simp only [toggle, List.getD_eq_getElem?_getD, List.getElem?_modify]
+  by_cases hj : j < v.length
+  · rw [List.getElem?_eq_getElem hj]
+    by_cases hij : i = j <;> simp [hij, hj]
+  · rw [List.getElem?_eq_none (by omega)]; simp [hj]
+
+@[simp] theorem applyOp_length (n : Nat) (op : P1) (v : BVec) (f : Nat) : (applyOp n op v f).length = v.length := by
+  unfold applyOp; split <;> split <;> simp
+
+/-- bit `j` after applying `op` at flat qubit index `f` -/
+theorem getD_applyOp (n : Nat) (op : P1) (v : BVec) (f j : Nat) (hj : j < v.length) :
+    (applyOp n op v f).getD j false =
+      xor (v.getD j false) (xor (op.xBit && decide (f = j)) (op.zBit && decide (n + f = j))) := by
+  unfold applyOp
+  cases hx : op.xBit <;> cases hz : op.zBit <;>
+    simp only [↓reduceIte, Bool.false_eq_true, getD_toggle, toggle_length, hj, decide_true, Bool.and_true,
+      Bool.false_and, Bool.true_and, Bool.xor_false, Bool.false_xor, Bool.xor_assoc]
+
+@[simp] theorem site_length (R C : Int) (op : P1) (v : BVec) (s : Int × Int) : (site R C op v s).length = v.length := by
+  unfold site; split <;> simp
+
+@[simp] theorem sites_length (R C : Int) (op : P1) (v : BVec) (l : List (Int × Int)) :
+    (sites R C op v l).length = v.length := by
+  unfold sites
+  induction l generalizing v with
+  | nil => rfl
+  | cons s l ih => simp [List.foldl_cons, ih]
+
+@[simp] theorem identity_length (R C : Int) : (identity R C).length = 2 * (nQubits R C).toNat := by
+  simp [identity, zeros]
+
+theorem getD_identity (R C : Int) (j : Nat) : (identity R C).getD j false = false := by
+  simp only [identity, zeros, List.getD_eq_getElem?_getD, List.getElem?_replicate]
+  split <;> rfl
+
+@[simp] theorem sites_nil (R C : Int) (op : P1) (v : BVec) : sites R C op v [] = v := rfl
+theorem sites_cons (R C : Int) (op : P1) (v : BVec) (s : Int × Int) (l : List (Int × Int)) :
+    sites R C op v (s :: l) = sites R C op (site R C op v s) l := rfl
+theorem sites_append (R C : Int) (op : P1) (v : BVec) (l l' : List (Int × Int)) :
+    sites R C op v (l ++ l') = sites R C op (sites R C op v l) l' := by
+  simp [sites, List.foldl_append]
+
+/-- does applying `op` at site `s` toggle bit `j`? -/
+def hit (R C : Int) (op : P1) (j : Nat) (s : Int × Int) : Bool :=
+  inBounds R C s.1 s.2 &&
+    xor (op.xBit && decide ((flatten R C s.1 s.2).toNat = j))
+        (op.zBit && decide ((nQubits R C).toNat + (flatten R C s.1 s.2).toNat = j))
+
+theorem getD_site (R C : Int) (op : P1) (v : BVec) (s : Int × Int) (j : Nat) (hj : j < v.length) :
+    (site R C op v s).getD j false = xor (v.getD j false) (hit R C op j s) := by
+  unfold site hit
+  split
+  · next h => rw [getD_applyOp _ _ _ _ _ hj, h]; simp
+  · next h => simp [h]
+
+/-- **toggle/bit lemma**: bit `j` of `sites R C op v l` is bit `j` of `v` XOR the parity of the number
+    of in-bounds members of `l` whose flat index (in the half selected by `op`) is `j` -/
+theorem getD_sites (R C : Int) (op : P1) (v : BVec) (l : List (Int × Int)) (j : Nat) (hj : j < v.length) :
+    (sites R C op v l).getD j false = xor (v.getD j false) (par (l.map (hit R C op j))) := by
+  induction l generalizing v with
+  | nil => simp
+  | cons s l ih =>
+    rw [sites_cons, ih _ (by simpa using hj), getD_site _ _ _ _ _ _ hj]
+    simp
+
+/-! ### `dot` / `bsp` of a toggled vector -/
+
+theorem toggle_append_left (x z : BVec) (i : Nat) (hi : i < x.length) : toggle (x ++ z) i = toggle x i ++ z := by
+  induction x generalizing i with
+  | nil => simp at hi
+  | cons a x ih =>
+    cases i with
+    | zero => simp [toggle]
+    | succ i =>
+      have := ih i (by simpa using hi)
+      simp only [toggle] at this ⊢
+      simp [this]
+
+theorem toggle_append_right (x z : BVec) (i : Nat) : toggle (x ++ z) (x.length + i) = x ++ toggle z i := by
+  induction x with
+  | nil => simp
+  | cons a x ih =>
+    simp only [toggle] at ih ⊢
+    rw [List.length_cons, show x.length + 1 + i = (x.length + i) + 1 by omega, List.cons_append,
+      List.modify_succ_cons, ih, List.cons_append]
+
+theorem dot_toggle (u w : BVec) (i : Nat) (hi : i < u.length) :
+    dot (toggle u i) w = xor (dot u w) (w.getD i false) := by
+  induction u generalizing i w with
+  | nil => simp at hi
+  | cons a u ih =>
+    cases w with
+    | nil => simp
+    | cons b w =>
+      cases i with
+      | zero =>
+        simp only [toggle, List.modify_zero_cons, dot_cons, List.getD_cons_zero]
+        cases a <;> cases b <;> cases dot u w <;> rfl
+      | succ i =>
+        have := ih w i (by simpa using hi)
+        simp only [toggle] at this
+        simp only [toggle, List.modify_succ_cons, dot_cons, List.getD_cons_succ, this]
+        cases (a && b) <;> cases dot u w <;> cases w.getD i false <;> rfl
+
+theorem getD_xHalf (w : BVec) (n f : Nat) (hw : w.length = 2 * n) (hf : f < n) :
+    (xHalf w).getD f false = w.getD f false := by
+  simp only [xHalf, List.getD_eq_getElem?_getD, List.getElem?_take, hw]
+  rw [if_pos (by omega)]
+
+theorem getD_zHalf (w : BVec) (n f : Nat) (hw : w.length = 2 * n) :
+    (zHalf w).getD f false = w.getD (n + f) false := by
+  simp only [zHalf, List.getD_eq_getElem?_getD, List.getElem?_drop, hw]
+  rw [show 2 * n / 2 = n by omega]
+
+theorem xHalf_toggle_lt (v : BVec) (n f : Nat) (hv : v.length = 2 * n) (hf : f < n) :
+    xHalf (toggle v f) = toggle (xHalf v) f ∧ zHalf (toggle v f) = zHalf v := by
+  have hx : (xHalf v).length = n := by rw [xHalf_length, hv]; omega
+  have hz : (zHalf v).length = n := by rw [zHalf_length, hv]; omega
+  have h : toggle v f = toggle (xHalf v) f ++ zHalf v := by
+    conv => lhs; rw [← half_append v]
+    exact toggle_append_left _ _ _ (by omega)
+  rw [h]
+  exact ⟨xHalf_append _ _ (by simp [hx, hz]), zHalf_append _ _ (by simp [hx, hz])⟩
+
+theorem xHalf_toggle_ge (v : BVec) (n f : Nat) (hv : v.length = 2 * n) :
+    xHalf (toggle v (n + f)) = xHalf v ∧ zHalf (toggle v (n + f)) = toggle (zHalf v) f := by
+  have hx : (xHalf v).length = n := by rw [xHalf_length, hv]; omega
+  have hz : (zHalf v).length = n := by rw [zHalf_length, hv]; omega
+  have h : toggle v (n + f) = xHalf v ++ toggle (zHalf v) f := by
+    conv => lhs; rw [← half_append v, ← hx]
+    exact toggle_append_right _ _ _
+  rw [h]
+  exact ⟨xHalf_append _ _ (by simp [hx, hz]), zHalf_append _ _ (by simp [hx, hz])⟩
+
+/-- toggling an X bit `f < n` of `v` flips `bsp v w` iff the Z bit `f` of `w` is set -/
+theorem bsp_toggle_x (n : Nat) (v w : BVec) (hv : v.length = 2 * n) (hw : w.length = 2 * n) (f : Nat) (hf : f < n) :
+    bsp (toggle v f) w = xor (bsp v w) (w.getD (n + f) false) := by
+  have hx : (xHalf v).length = n := by rw [xHalf_length, hv]; omega
+  rw [bsp_halves _ _ (by simp [hv, hw]) (by simp [hv]), bsp_halves _ _ (by simp [hv, hw]) (by simp [hv]),
+    (xHalf_toggle_lt v n f hv hf).1, (xHalf_toggle_lt v n f hv hf).2, dot_toggle _ _ _ (by omega),
+    getD_zHalf w n f hw]
+  simp
+
+/-- toggling a Z bit `n + f` of `v` flips `bsp v w` iff the X bit `f` of `w` is set -/
+theorem bsp_toggle_z (n : Nat) (v w : BVec) (hv : v.length = 2 * n) (hw : w.length = 2 * n) (f : Nat) (hf : f < n) :
+    bsp (toggle v (n + f)) w = xor (bsp v w) (w.getD f false) := by
+  have hz : (zHalf v).length = n := by rw [zHalf_length, hv]; omega
+  rw [bsp_halves _ _ (by simp [hv, hw]) (by simp [hv]), bsp_halves _ _ (by simp [hv, hw]) (by simp [hv]),
+    (xHalf_toggle_ge v n f hv).1, (xHalf_toggle_ge v n f hv).2, dot_toggle _ _ _ (by omega),
+    getD_xHalf w n f hw hf]
+  cases dot (zHalf v) (xHalf w) <;> cases dot (xHalf v) (zHalf w) <;> cases w.getD f false <;> rfl
+
+theorem bsp_applyOp (n : Nat) (op : P1) (v w : BVec) (hv : v.length = 2 * n) (hw : w.length = 2 * n)
+    (f : Nat) (hf : f < n) :
+    bsp (applyOp n op v f) w =
+      xor (bsp v w) (xor (op.xBit && w.getD (n + f) false) (op.zBit && w.getD f false)) := by
+  unfold applyOp
+  cases hx : op.xBit <;> cases hz : op.zBit <;>
+    simp only [↓reduceIte, Bool.false_eq_true, Bool.false_and, Bool.true_and, Bool.xor_false, Bool.false_xor]
+  · exact bsp_toggle_z n v w hv hw f hf
+  · exact bsp_toggle_x n v w hv hw f hf
+  · rw [bsp_toggle_z n _ w (by simp [hv]) hw f hf, bsp_toggle_x n v w hv hw f hf, Bool.xor_assoc]
+
+theorem bsp_zeros_left (m : Nat) (w : BVec) : bsp (zeros m) w = false := by
+  have : ∀ (k : Nat) (w : BVec), dot (List.replicate k false) w = false := by
+    intro k
+    induction k with
+    | zero => intro w; simp
+    | succ k ih => intro w; cases w with
+      | nil => simp
+      | cons b w => simp [List.replicate_succ, ih]
+  unfold bsp zeros zHalf xHalf
+  rw [List.drop_replicate, List.take_replicate, List.replicate_append_replicate]
+  exact this _ _
+
+/-! ### index predicates as arithmetic -/
+
+theorem inBounds_iff (R C r c : Int) :
+    inBounds R C r c = true ↔ 0 ≤ r ∧ r ≤ 2 * R - 2 ∧ 0 ≤ c ∧ c ≤ 2 * C - 2 := by
+  show (decide (0 ≤ r) && decide (r ≤ 2 * R - 2) && decide (0 ≤ c) && decide (c ≤ 2 * C - 2)) = true ↔ _
+  simp only [Bool.and_eq_true, decide_eq_true_eq, and_assoc]
+
+theorem inBounds_eq_false_iff (R C r c : Int) :
+    inBounds R C r c = false ↔ ¬ (0 ≤ r ∧ r ≤ 2 * R - 2 ∧ 0 ≤ c ∧ c ≤ 2 * C - 2) := by
+  rw [← inBounds_iff, Bool.not_eq_true]
+
+theorem isPlaquette_iff (r c : Int) : isPlaquette r c = true ↔ (r + c) % 2 = 1 := by
+  simp [isPlaquette]
+
+theorem isPlaquette_eq_false_iff (r c : Int) : isPlaquette r c = false ↔ (r + c) % 2 = 0 := by
+  rw [← Bool.not_eq_true, isPlaquette_iff]; omega
+
+theorem isSite_iff (r c : Int) : isSite r c = true ↔ (r + c) % 2 = 0 := by
+  simp only [isSite, Bool.not_eq_eq_eq_not, Bool.not_true, isPlaquette_eq_false_iff]
+
+/-- an index is on the primal lattice iff its column is even -/
+theorem isPrimal_iff (r c : Int) : isPrimal r c = true ↔ c % 2 = 0 := by
+  simp only [isPrimal, isSite, isPlaquette, Bool.or_eq_true, Bool.and_eq_true, beq_iff_eq, Bool.not_eq_eq_eq_not,
+    Bool.not_true, beq_eq_false_iff_ne, ne_eq]
+  omega
+
+theorem isPrimal_eq_false_iff (r c : Int) : isPrimal r c = false ↔ c % 2 = 1 := by
+  rw [← Bool.not_eq_true, isPrimal_iff]; omega
+
+theorem isPrimal_eq_iff (r c r' c' : Int) : isPrimal r c = isPrimal r' c' ↔ c % 2 = c' % 2 := by
+  cases h : isPrimal r c <;> cases h' : isPrimal r' c' <;>
+    simp only [isPrimal_iff, isPrimal_eq_false_iff] at h h' <;> simp <;> omega
+
+/-! ### `flatten`: range and injectivity on in-bounds sites -/
+
+theorem mul_add_inj (C i j i' j' : Int) (hj : 0 ≤ j) (hjC : j < C) (hj' : 0 ≤ j') (hj'C : j' < C)
+    (h : i * C + j = i' * C + j') : i = i' ∧ j = j' := by
+  rcases Int.lt_trichotomy i i' with hlt | heq | hgt
+  · have := Int.mul_le_mul_of_nonneg_right (show i + 1 ≤ i' by omega) (show 0 ≤ C by omega)
+    rw [Int.add_mul, Int.one_mul] at this
+    omega
+  · subst heq; omega
+  · have := Int.mul_le_mul_of_nonneg_right (show i' + 1 ≤ i by omega) (show 0 ≤ C by omega)
+    rw [Int.add_mul, Int.one_mul] at this
+    omega
+
+theorem mul_add_lt (C R i j : Int) (hi : 0 ≤ i) (hiR : i < R) (hj : 0 ≤ j) (hjC : j < C) :
+    0 ≤ i * C + j ∧ i * C + j < R * C := by
+  have h1 := Int.mul_le_mul_of_nonneg_right (show i + 1 ≤ R by omega) (show 0 ≤ C by omega)
+  rw [Int.add_mul, Int.one_mul] at h1
+  have h2 := Int.mul_nonneg hi (show 0 ≤ C by omega)
+  omega
+
+theorem flatten_even (R C r c : Int) (hr : r % 2 = 0) (hc : c % 2 = 0) :
+    flatten R C r c = r / 2 * C + c / 2 := by
+  unfold flatten; rw [hr, hc]; simp
+
+theorem flatten_odd (R C r c : Int) (hr : r % 2 = 1) (hc : c % 2 = 1) :
+    flatten R C r c = r / 2 * (C - 1) + c / 2 + R * C := by
+  unfold flatten; rw [hr, hc]; simp
+
+/-- sites in the lattice: even–even ("primal" sites) come first, odd–odd after `R * C` -/
+theorem flatten_cases (R C r c : Int) (hs : isSite r c = true) (hb : inBounds R C r c = true) :
+    (r % 2 = 0 ∧ c % 2 = 0 ∧ flatten R C r c = r / 2 * C + c / 2 ∧
+        0 ≤ flatten R C r c ∧ flatten R C r c < R * C) ∨
+    (r % 2 = 1 ∧ c % 2 = 1 ∧ flatten R C r c = r / 2 * (C - 1) + c / 2 + R * C ∧
+        R * C ≤ flatten R C r c ∧ flatten R C r c < R * C + (R - 1) * (C - 1)) := by
+  rw [isSite_iff] at hs
+  rw [inBounds_iff] at hb
+  by_cases hr : r % 2 = 0
+  · have hc : c % 2 = 0 := by omega
+    left
+    have := mul_add_lt C R (r / 2) (c / 2) (by omega) (by omega) (by omega) (by omega)
+    rw [flatten_even R C r c hr hc]
+    exact ⟨hr, hc, rfl, this.1, this.2⟩
+  · have hr : r % 2 = 1 := by omega
+    have hc : c % 2 = 1 := by omega
+    right
+    have := mul_add_lt (C - 1) (R - 1) (r / 2) (c / 2) (by omega) (by omega) (by omega) (by omega)
+    rw [flatten_odd R C r c hr hc]
+    exact ⟨hr, hc, rfl, by omega, by omega⟩
+
+/-- **flatten range** -/
+theorem flatten_nonneg_lt (R C r c : Int) (hR : 2 ≤ R) (hC : 2 ≤ C) (hs : isSite r c = true)
+    (hb : inBounds R C r c = true) : 0 ≤ flatten R C r c ∧ flatten R C r c < nQubits R C := by
+  have h0 := Int.mul_nonneg (show 0 ≤ R - 1 by omega) (show 0 ≤ C - 1 by omega)
+  have h1 := Int.mul_nonneg (show 0 ≤ R by omega) (show 0 ≤ C by omega)
+  unfold nQubits
+  rcases flatten_cases R C r c hs hb with h | h <;> omega
+
+/-- **flatten injectivity** on in-bounds sites -/
+theorem flatten_inj (R C : Int) (s s' : Int × Int)
+    (hs : isSite s.1 s.2 = true) (hb : inBounds R C s.1 s.2 = true)
+    (hs' : isSite s'.1 s'.2 = true) (hb' : inBounds R C s'.1 s'.2 = true)
+    (h : flatten R C s.1 s.2 = flatten R C s'.1 s'.2) : s = s' := by
+  obtain ⟨r, c⟩ := s
+  obtain ⟨r', c'⟩ := s'
+  simp only at hs hb hs' hb' h
+  have hbb := (inBounds_iff _ _ _ _).1 hb
+  have hbb' := (inBounds_iff _ _ _ _).1 hb'
+  rcases flatten_cases R C r c hs hb with ⟨e1, e2, e3, e4, e5⟩ | ⟨e1, e2, e3, e4, e5⟩ <;>
+  rcases flatten_cases R C r' c' hs' hb' with ⟨f1, f2, f3, f4, f5⟩ | ⟨f1, f2, f3, f4, f5⟩
+  · rw [e3, f3] at h
+    have := mul_add_inj C _ _ _ _ (by omega) (by omega) (by omega) (by omega) h
+    rw [Prod.mk.injEq]; omega
+  · omega
+  · omega
+  · rw [e3, f3] at h
+    have := mul_add_inj (C - 1) (r / 2) (c / 2) (r' / 2) (c' / 2) (by omega) (by omega) (by omega) (by omega)
+      (by omega)
+    rw [Prod.mk.injEq]; omega
+
+/-- the flat index as a natural number -/
+theorem flatten_toNat_lt (R C r c : Int) (hR : 2 ≤ R) (hC : 2 ≤ C) (hs : isSite r c = true)
+    (hb : inBounds R C r c = true) : (flatten R C r c).toNat < (nQubits R C).toNat := by
+  have := flatten_nonneg_lt R C r c hR hC hs hb
+  omega
+
+theorem flatten_toNat_inj (R C : Int) (hR : 2 ≤ R) (hC : 2 ≤ C) (s s' : Int × Int)
+    (hs : isSite s.1 s.2 = true) (hb : inBounds R C s.1 s.2 = true)
+    (hs' : isSite s'.1 s'.2 = true) (hb' : inBounds R C s'.1 s'.2 = true)
+    (h : (flatten R C s.1 s.2).toNat = (flatten R C s'.1 s'.2).toNat) : s = s' := by
+  have h1 := flatten_nonneg_lt R C _ _ hR hC hs hb
+  have h2 := flatten_nonneg_lt R C _ _ hR hC hs' hb'
+  exact flatten_inj R C s s' hs hb hs' hb' (by omega)
+
+/-! ### symplectic products of site-operators -/
+
+/-- every member is a site index -/
+def AllSites (l : List (Int × Int)) : Prop := ∀ s ∈ l, isSite s.1 s.2 = true
+
+theorem AllSites.cons {s : Int × Int} {l : List (Int × Int)} (h : AllSites (s :: l)) :
+    isSite s.1 s.2 = true ∧ AllSites l :=
+  ⟨h s (by simp), fun t ht => h t (by simp [ht])⟩
+
+theorem AllSites.append {l l' : List (Int × Int)} (h : AllSites l) (h' : AllSites l') : AllSites (l ++ l') := by
+  intro s hs
+  rcases List.mem_append.1 hs with h1 | h1
+  · exact h s h1
+  · exact h' s h1
+
+/-- parity of the number of occurrences of `s` in `l` -/
+def occ (l : List (Int × Int)) (s : Int × Int) : Bool := par (l.map fun s' => decide (s' = s))
+
+/-- parity of the number of pairs (member of `l`, equal member of `l'`) that lie in the lattice:
+    for duplicate-free lists, the parity of the number of common in-bounds sites -/
+def common (R C : Int) (l l' : List (Int × Int)) : Bool :=
+  par (l.map fun s => inBounds R C s.1 s.2 && occ l' s)
+
+theorem bsp_site (R C : Int) (hR : 2 ≤ R) (hC : 2 ≤ C) (op : P1) (v w : BVec)
+    (hv : v.length = 2 * (nQubits R C).toNat) (hw : w.length = 2 * (nQubits R C).toNat)
+    (s : Int × Int) (hs : isSite s.1 s.2 = true) :
+    bsp (site R C op v s) w = xor (bsp v w) (inBounds R C s.1 s.2 &&
+      xor (op.xBit && w.getD ((nQubits R C).toNat + (flatten R C s.1 s.2).toNat) false)
+          (op.zBit && w.getD (flatten R C s.1 s.2).toNat false)) := by
+  unfold site
+  split
+  · next h =>
+    rw [bsp_applyOp _ _ _ _ hv hw _ (flatten_toNat_lt R C _ _ hR hC hs h), h]; simp
+  · next h => simp [h]
+
+/-- `bsp` of a site-operator against any vector: one read-back of `w` per in-bounds site -/
+theorem bsp_sites (R C : Int) (hR : 2 ≤ R) (hC : 2 ≤ C) (op : P1) (v w : BVec)
+    (hv : v.length = 2 * (nQubits R C).toNat) (hw : w.length = 2 * (nQubits R C).toNat)
+    (l : List (Int × Int)) (hl : AllSites l) :
+    bsp (sites R C op v l) w = xor (bsp v w) (par (l.map fun s => inBounds R C s.1 s.2 &&
+      xor (op.xBit && w.getD ((nQubits R C).toNat + (flatten R C s.1 s.2).toNat) false)
+          (op.zBit && w.getD (flatten R C s.1 s.2).toNat false))) := by
+  induction l generalizing v with
+  | nil => simp
+  | cons s l ih =>
+    rw [sites_cons, ih _ (by simpa using hv) hl.cons.2, bsp_site R C hR hC op v w hv hw s hl.cons.1]
+    simp only [List.map_cons, par_cons, Bool.xor_assoc]
+
+theorem identity_bsp (R C : Int) (w : BVec) : bsp (identity R C) w = false := bsp_zeros_left _ _
+
+/-- X bit of the site-operator of `l` (built from the identity) at an in-bounds site `s` -/
+theorem getD_sites_x (R C : Int) (hR : 2 ≤ R) (hC : 2 ≤ C) (op : P1) (l : List (Int × Int)) (hl : AllSites l)
+    (s : Int × Int) (hs : isSite s.1 s.2 = true) (hb : inBounds R C s.1 s.2 = true) :
+    (sites R C op (identity R C) l).getD (flatten R C s.1 s.2).toNat false = (op.xBit && occ l s) := by
+  have hf := flatten_toNat_lt R C _ _ hR hC hs hb
+  rw [getD_sites _ _ _ _ _ _ (by rw [identity_length]; omega), getD_identity, Bool.false_xor, occ,
+    ← par_map_and_left]
+  apply par_map_congr
+  intro s' hs'
+  unfold hit
+  by_cases hb' : inBounds R C s'.1 s'.2 = true
+  · have hf' := flatten_toNat_lt R C _ _ hR hC (hl s' hs') hb'
+    have e2 : decide ((nQubits R C).toNat + (flatten R C s'.1 s'.2).toNat = (flatten R C s.1 s.2).toNat) = false :=
+      decide_eq_false (by omega)
+    have e1 : decide ((flatten R C s'.1 s'.2).toNat = (flatten R C s.1 s.2).toNat) = decide (s' = s) := by
+      apply decide_eq_decide.mpr
+      constructor
+      · exact flatten_toNat_inj R C hR hC s' s (hl s' hs') hb' hs hb
+      · intro e; rw [e]
+    rw [hb', e1, e2]; simp
+  · have hne : ¬ s' = s := by intro e; rw [e] at hb'; exact hb' hb
+    simp [hb', hne]
+
+/-- Z bit of the site-operator of `l` (built from the identity) at an in-bounds site `s` -/
+theorem getD_sites_z (R C : Int) (hR : 2 ≤ R) (hC : 2 ≤ C) (op : P1) (l : List (Int × Int)) (hl : AllSites l)
+    (s : Int × Int) (hs : isSite s.1 s.2 = true) (hb : inBounds R C s.1 s.2 = true) :
+    (sites R C op (identity R C) l).getD ((nQubits R C).toNat + (flatten R C s.1 s.2).toNat) false =
+      (op.zBit && occ l s) := by
+  have hf := flatten_toNat_lt R C _ _ hR hC hs hb
+  rw [getD_sites _ _ _ _ _ _ (by rw [identity_length]; omega), getD_identity, Bool.false_xor, occ,
+    ← par_map_and_left]
+  apply par_map_congr
+  intro s' hs'
+  unfold hit
+  by_cases hb' : inBounds R C s'.1 s'.2 = true
+  · have hf' := flatten_toNat_lt R C _ _ hR hC (hl s' hs') hb'
+    have e2 : decide ((flatten R C s'.1 s'.2).toNat = (nQubits R C).toNat + (flatten R C s.1 s.2).toNat) = false :=
+      decide_eq_false (by omega)
+    have e1 : decide ((nQubits R C).toNat + (flatten R C s'.1 s'.2).toNat =
+        (nQubits R C).toNat + (flatten R C s.1 s.2).toNat) = decide (s' = s) := by
+      apply decide_eq_decide.mpr
+      constructor
+      · intro e; exact flatten_toNat_inj R C hR hC s' s (hl s' hs') hb' hs hb (by omega)
+      · intro e; rw [e]
+    rw [hb', e1, e2]; simp
+  · have hne : ¬ s' = s := by intro e; rw [e] at hb'; exact hb' hb
+    simp [hb', hne]
+
+/-- **bsp of two site-operators**: they anticommute iff their single-qubit types anticommute (X/Z, X/Y, Y/Z)
+    and the number of common in-bounds sites (with multiplicity) is odd -/
+theorem bsp_sites_sites (R C : Int) (hR : 2 ≤ R) (hC : 2 ≤ C) (op op' : P1) (l l' : List (Int × Int))
+    (hl : AllSites l) (hl' : AllSites l') :
+    bsp (sites R C op (identity R C) l) (sites R C op' (identity R C) l') =
+      (P1.anti op op' && common R C l l') := by
+  rw [bsp_sites R C hR hC op _ _ (identity_length R C) (by simp) l hl, identity_bsp, Bool.false_xor, common,
+    ← par_map_and_left]
+  apply par_map_congr
+  intro s hs
+  by_cases hb : inBounds R C s.1 s.2 = true
+  · rw [getD_sites_x R C hR hC op' l' hl' s (hl s hs) hb, getD_sites_z R C hR hC op' l' hl' s (hl s hs) hb, hb]
+    cases op <;> cases op' <;> cases occ l' s <;> rfl
+  · simp [hb]
+
+/-! ### plaquettes and straight runs of sites -/
+
+theorem allSites_plaquetteSites (r c : Int) (h : isPlaquette r c = true) : AllSites (plaquetteSites r c) := by
+  rw [isPlaquette_iff] at h
+  intro s hs
+  simp only [plaquetteSites, List.mem_cons, List.not_mem_nil, or_false] at hs
+  rw [isSite_iff]
+  rcases hs with e | e | e | e <;> rw [e] <;> simp only <;> omega
+
+theorem occ_plaquetteSites (r c : Int) (s : Int × Int) :
+    occ (plaquetteSites r c) s =
+      xor (decide (r - 1 = s.1 ∧ c = s.2)) (xor (decide (r + 1 = s.1 ∧ c = s.2))
+        (xor (decide (r = s.1 ∧ c - 1 = s.2)) (decide (r = s.1 ∧ c + 1 = s.2)))) := by
+  obtain ⟨s1, s2⟩ := s
+  simp only [occ, plaquetteSites, List.map_cons, List.map_nil, par_cons, par_nil, Prod.mk.injEq, Bool.xor_false]
+
+/-- one vertical step: the site `s` between the plaquettes `q` (above) and `q'` (below) is in the lattice
+    and adjacent to the in-lattice plaquette `p` of the same type iff `p` is exactly one of `q`, `q'` —
+    provided `s` is in the lattice or neither `q` nor `q'` is -/
+theorem step_vertical (R C : Int) (p s q q' : Int × Int)
+    (hq1 : q.1 = s.1 - 1) (hq2 : q.2 = s.2) (hq'1 : q'.1 = s.1 + 1) (hq'2 : q'.2 = s.2)
+    (hp : isPlaquette p.1 p.2 = true) (hpb : inBounds R C p.1 p.2 = true)
+    (hq : isPlaquette q.1 q.2 = true) (hty : isPrimal p.1 p.2 = isPrimal q.1 q.2)
+    (h : inBounds R C s.1 s.2 = true ∨ (inBounds R C q.1 q.2 = false ∧ inBounds R C q'.1 q'.2 = false)) :
+    (inBounds R C s.1 s.2 && occ (plaquetteSites p.1 p.2) s) = xor (decide (p = q)) (decide (p = q')) := by
+  obtain ⟨pr, pc⟩ := p
+  obtain ⟨r, c⟩ := s
+  obtain ⟨qr, qc⟩ := q
+  obtain ⟨qr', qc'⟩ := q'
+  simp only at hq1 hq2 hq'1 hq'2 hp hpb hq hty h ⊢
+  rw [isPlaquette_iff] at hp hq
+  rw [isPrimal_eq_iff] at hty
+  rw [inBounds_iff] at hpb
+  rw [occ_plaquetteSites]
+  simp only [Prod.mk.injEq]
+  have hW : decide (pr = r ∧ pc - 1 = c) = false := decide_eq_false (by omega)
+  have hE : decide (pr = r ∧ pc + 1 = c) = false := decide_eq_false (by omega)
+  have hN : decide (pr - 1 = r ∧ pc = c) = decide (pr = qr' ∧ pc = qc') := decide_eq_decide.mpr (by omega)
+  have hS : decide (pr + 1 = r ∧ pc = c) = decide (pr = qr ∧ pc = qc) := decide_eq_decide.mpr (by omega)
+  rw [hW, hE, hN, hS]
+  have hA : (pr = qr ∧ pc = qc) ∨ (pr = qr' ∧ pc = qc') → inBounds R C r c = true := by
+    intro hh
+    rcases h with h | ⟨h1, h2⟩
+    · exact h
+    · rw [inBounds_eq_false_iff] at h1 h2; omega
+  by_cases h1 : pr = qr ∧ pc = qc
+  · rw [hA (Or.inl h1)]
+    have h2 : ¬ (pr = qr' ∧ pc = qc') := by omega
+    simp [h1]
+  · by_cases h2 : pr = qr' ∧ pc = qc'
+    · rw [hA (Or.inr h2)]; simp [h2]
+    · simp [h1, h2]
+
+/-- one horizontal step (`q` to the west, `q'` to the east of the site `s`) -/
+theorem step_horizontal (R C : Int) (p s q q' : Int × Int)
+    (hq1 : q.1 = s.1) (hq2 : q.2 = s.2 - 1) (hq'1 : q'.1 = s.1) (hq'2 : q'.2 = s.2 + 1)
+    (hp : isPlaquette p.1 p.2 = true) (hpb : inBounds R C p.1 p.2 = true)
+    (hq : isPlaquette q.1 q.2 = true) (hty : isPrimal p.1 p.2 = isPrimal q.1 q.2)
+    (h : inBounds R C s.1 s.2 = true ∨ (inBounds R C q.1 q.2 = false ∧ inBounds R C q'.1 q'.2 = false)) :
+    (inBounds R C s.1 s.2 && occ (plaquetteSites p.1 p.2) s) = xor (decide (p = q)) (decide (p = q')) := by
+  obtain ⟨pr, pc⟩ := p
+  obtain ⟨r, c⟩ := s
+  obtain ⟨qr, qc⟩ := q
+  obtain ⟨qr', qc'⟩ := q'
+  simp only at hq1 hq2 hq'1 hq'2 hp hpb hq hty h ⊢
+  rw [isPlaquette_iff] at hp hq
+  rw [isPrimal_eq_iff] at hty
+  rw [inBounds_iff] at hpb
+  rw [occ_plaquetteSites]
+  simp only [Prod.mk.injEq]
+  have hN : decide (pr - 1 = r ∧ pc = c) = false := decide_eq_false (by omega)
+  have hS : decide (pr + 1 = r ∧ pc = c) = false := decide_eq_false (by omega)
+  have hW : decide (pr = r ∧ pc - 1 = c) = decide (pr = qr' ∧ pc = qc') := decide_eq_decide.mpr (by omega)
+  have hE : decide (pr = r ∧ pc + 1 = c) = decide (pr = qr ∧ pc = qc) := decide_eq_decide.mpr (by omega)
+  rw [hW, hE, hN, hS]
+  have hA : (pr = qr ∧ pc = qc) ∨ (pr = qr' ∧ pc = qc') → inBounds R C r c = true := by
+    intro hh
+    rcases h with h | ⟨h1, h2⟩
+    · exact h
+    · rw [inBounds_eq_false_iff] at h1 h2; omega
+  by_cases h1 : pr = qr ∧ pc = qc
+  · rw [hA (Or.inl h1)]
+    have h2 : ¬ (pr = qr' ∧ pc = qc') := by omega
+    simp [h1]
+  · by_cases h2 : pr = qr' ∧ pc = qc'
+    · rw [hA (Or.inr h2)]; simp [h2]
+    · simp [h1, h2]
+
+/-- contribution of a site to the product with the generator of plaquette `p` -/
+def contrib (R C : Int) (p s : Int × Int) : Bool := inBounds R C s.1 s.2 && occ (plaquetteSites p.1 p.2) s
+
+theorem common_plaquetteSites (R C : Int) (l : List (Int × Int)) (p : Int × Int) :
+    common R C l (plaquetteSites p.1 p.2) = par (l.map (contrib R C p)) := rfl
+
+/-- a straight run of `k` sites southwards from plaquette `q` (staying within rows −1 … 2R−1) anticommutes
+    with exactly the plaquettes at its two ends -/
+theorem run_down (R C : Int) (p q : Int × Int) (k : Nat)
+    (hp : isPlaquette p.1 p.2 = true) (hpb : inBounds R C p.1 p.2 = true)
+    (hq : isPlaquette q.1 q.2 = true) (hty : isPrimal p.1 p.2 = isPrimal q.1 q.2)
+    (hlo : -1 ≤ q.1) (hhi : q.1 + 2 * (k : Int) ≤ 2 * R - 1) :
+    par (((List.range k).map fun (i : Nat) => (q.1 + 1 + 2 * (i : Int), q.2)).map (contrib R C p)) =
+      xor (decide (p = q)) (decide (p = (q.1 + 2 * (k : Int), q.2))) := by
+  rw [List.map_map]
+  have := par_range_telescope k ((contrib R C p) ∘ fun (i : Nat) => (q.1 + 1 + 2 * (i : Int), q.2))
+    (fun i => decide (p = (q.1 + 2 * (i : Int), q.2))) ?_
+  · rw [this]; simp
+  · intro i hi
+    simp only [Function.comp, contrib]
+    apply step_vertical R C p (q.1 + 1 + 2 * (i : Int), q.2) (q.1 + 2 * (i : Int), q.2)
+      (q.1 + 2 * ((i + 1 : Nat) : Int), q.2) (by simp only; omega) rfl (by simp only; omega) rfl hp hpb
+    · rw [isPlaquette_iff] at hq ⊢; simp only; omega
+    · rw [hty, isPrimal_eq_iff]
+    · simp only [inBounds_iff, inBounds_eq_false_iff]; omega
+
+theorem run_up (R C : Int) (p q : Int × Int) (k : Nat)
+    (hp : isPlaquette p.1 p.2 = true) (hpb : inBounds R C p.1 p.2 = true)
+    (hq : isPlaquette q.1 q.2 = true) (hty : isPrimal p.1 p.2 = isPrimal q.1 q.2)
+    (hhi : q.1 ≤ 2 * R - 1) (hlo : -1 ≤ q.1 - 2 * (k : Int)) :
+    par (((List.range k).map fun (i : Nat) => (q.1 - 1 - 2 * (i : Int), q.2)).map (contrib R C p)) =
+      xor (decide (p = q)) (decide (p = (q.1 - 2 * (k : Int), q.2))) := by
+  rw [List.map_map]
+  have := par_range_telescope k ((contrib R C p) ∘ fun (i : Nat) => (q.1 - 1 - 2 * (i : Int), q.2))
+    (fun i => decide (p = (q.1 - 2 * (i : Int), q.2))) ?_
+  · rw [this]; simp
+  · intro i hi
+    simp only [Function.comp, contrib]
+    rw [Bool.xor_comm]
+    apply step_vertical R C p (q.1 - 1 - 2 * (i : Int), q.2) (q.1 - 2 * ((i + 1 : Nat) : Int), q.2)
+      (q.1 - 2 * (i : Int), q.2) (by simp only; omega) rfl (by simp only; omega) rfl hp hpb
+    · rw [isPlaquette_iff] at hq ⊢; simp only; omega
+    · rw [hty, isPrimal_eq_iff]
+    · simp only [inBounds_iff, inBounds_eq_false_iff]; omega
+
+theorem run_right (R C : Int) (p q : Int × Int) (k : Nat)
+    (hp : isPlaquette p.1 p.2 = true) (hpb : inBounds R C p.1 p.2 = true)
+    (hq : isPlaquette q.1 q.2 = true) (hty : isPrimal p.1 p.2 = isPrimal q.1 q.2)
+    (hlo : -1 ≤ q.2) (hhi : q.2 + 2 * (k : Int) ≤ 2 * C - 1) :
+    par (((List.range k).map fun (i : Nat) => (q.1, q.2 + 1 + 2 * (i : Int))).map (contrib R C p)) =
+      xor (decide (p = q)) (decide (p = (q.1, q.2 + 2 * (k : Int)))) := by
+  rw [List.map_map]
+  have := par_range_telescope k ((contrib R C p) ∘ fun (i : Nat) => (q.1, q.2 + 1 + 2 * (i : Int)))
+    (fun i => decide (p = (q.1, q.2 + 2 * (i : Int)))) ?_
+  · rw [this]; simp
+  · intro i hi
+    simp only [Function.comp, contrib]
+    apply step_horizontal R C p (q.1, q.2 + 1 + 2 * (i : Int)) (q.1, q.2 + 2 * (i : Int))
+      (q.1, q.2 + 2 * ((i + 1 : Nat) : Int)) rfl (by simp only; omega) rfl (by simp only; omega) hp hpb
+    · rw [isPlaquette_iff] at hq ⊢; simp only; omega
+    · rw [hty, isPrimal_eq_iff]; simp only; omega
+    · simp only [inBounds_iff, inBounds_eq_false_iff]; omega
+
+theorem run_left (R C : Int) (p q : Int × Int) (k : Nat)
+    (hp : isPlaquette p.1 p.2 = true) (hpb : inBounds R C p.1 p.2 = true)
+    (hq : isPlaquette q.1 q.2 = true) (hty : isPrimal p.1 p.2 = isPrimal q.1 q.2)
+    (hhi : q.2 ≤ 2 * C - 1) (hlo : -1 ≤ q.2 - 2 * (k : Int)) :
+    par (((List.range k).map fun (i : Nat) => (q.1, q.2 - 1 - 2 * (i : Int))).map (contrib R C p)) =
+      xor (decide (p = q)) (decide (p = (q.1, q.2 - 2 * (k : Int)))) := by
+  rw [List.map_map]
+  have := par_range_telescope k ((contrib R C p) ∘ fun (i : Nat) => (q.1, q.2 - 1 - 2 * (i : Int)))
+    (fun i => decide (p = (q.1, q.2 - 2 * (i : Int)))) ?_
+  · rw [this]; simp
+  · intro i hi
+    simp only [Function.comp, contrib]
+    rw [Bool.xor_comm]
+    apply step_horizontal R C p (q.1, q.2 - 1 - 2 * (i : Int)) (q.1, q.2 - 2 * ((i + 1 : Nat) : Int))
+      (q.1, q.2 - 2 * (i : Int)) rfl (by simp only; omega) rfl (by simp only; omega) hp hpb
+    · rw [isPlaquette_iff] at hq ⊢; simp only; omega
+    · rw [hty, isPrimal_eq_iff]; simp only; omega
+    · simp only [inBounds_iff, inBounds_eq_false_iff]; omega
+
+/-! ### the sites of a path -/
+
+theorem allSites_pathSites (a : Int × Int) (rs cs : Int) (ha : isPlaquette a.1 a.2 = true) :
+    AllSites (pathSites a rs cs) := by
+  rw [isPlaquette_iff] at ha
+  intro s hs
+  rw [isSite_iff]
+  simp only [pathSites, List.mem_append] at hs
+  rcases hs with hs | hs
+  · split at hs <;> (obtain ⟨i, _, e⟩ := List.mem_map.1 hs; rw [← e]; simp only; omega)
+  · split at hs <;> (obtain ⟨i, _, e⟩ := List.mem_map.1 hs; rw [← e]; simp only; omega)
+
+theorem length_pathSites (a : Int × Int) (rs cs : Int) : (pathSites a rs cs).length = rs.natAbs + cs.natAbs := by
+  simp only [pathSites, List.length_append]
+  split <;> split <;> simp
+
+/-- the plaquette indices a path may start / end at: rows −1 … 2R−1, columns −1 … 2C−1 -/
+def Box (R C : Int) (a : Int × Int) : Prop := -1 ≤ a.1 ∧ a.1 ≤ 2 * R - 1 ∧ -1 ≤ a.2 ∧ a.2 ≤ 2 * C - 1
+
+/-- **path lemma** (characteristic-function form): the sites of the path from `a` by the exact translation
+    to `b` (both within the box, same type) meet the neighbourhood of an in-lattice plaquette `p` of that type
+    an odd number of times iff `p` is exactly one of `a`, `b` -/
+theorem common_pathSites (R C : Int) (a b p : Int × Int)
+    (ha : isPlaquette a.1 a.2 = true) (hb : isPlaquette b.1 b.2 = true)
+    (hab : isPrimal a.1 a.2 = isPrimal b.1 b.2) (hBa : Box R C a) (hBb : Box R C b)
+    (hp : isPlaquette p.1 p.2 = true) (hpb : inBounds R C p.1 p.2 = true)
+    (hpa : isPrimal p.1 p.2 = isPrimal a.1 a.2) :
+    common R C (pathSites a ((b.1 - a.1) / 2) ((b.2 - a.2) / 2)) (plaquetteSites p.1 p.2) =
+      xor (decide (p = a)) (decide (p = b)) := by
+  obtain ⟨a1, a2⟩ := a
+  obtain ⟨b1, b2⟩ := b
+  simp only [Box] at ha hb hab hBa hBb hpa ⊢
+  have ha' := (isPlaquette_iff _ _).1 ha
+  have hb' := (isPlaquette_iff _ _).1 hb
+  have hab' := (isPrimal_eq_iff _ _ _ _).1 hab
+  have hmid : isPlaquette b1 a2 = true := by rw [isPlaquette_iff]; omega
+  have hpmid : isPrimal p.1 p.2 = isPrimal b1 a2 := by rw [hpa, isPrimal_eq_iff]
+  rw [common_plaquetteSites]
+  simp only [pathSites, List.map_append, par_append]
+  have e1 : a1 + 2 * ((b1 - a1) / 2) = b1 := by omega
+  rw [e1]
+  have hV : par ((if (b1 - a1) / 2 < 0 then
+        (List.range ((b1 - a1) / 2).natAbs).map fun (i : Nat) => (a1 - 1 - 2 * (i : Int), a2)
+      else (List.range ((b1 - a1) / 2).natAbs).map fun (i : Nat) => (a1 + 1 + 2 * (i : Int), a2)).map
+        (contrib R C p)) = xor (decide (p = (a1, a2))) (decide (p = (b1, a2))) := by
+    split
+    · have := run_up R C p (a1, a2) ((b1 - a1) / 2).natAbs hp hpb ha hpa (by simp only; omega) (by simp only; omega)
+      simp only at this
+      rw [this, show a1 - 2 * (((b1 - a1) / 2).natAbs : Int) = b1 by omega]
+    · have := run_down R C p (a1, a2) ((b1 - a1) / 2).natAbs hp hpb ha hpa (by simp only; omega)
+        (by simp only; omega)
+      simp only at this
+      rw [this, show a1 + 2 * (((b1 - a1) / 2).natAbs : Int) = b1 by omega]
+  have hH : par ((if (b2 - a2) / 2 < 0 then
+        (List.range ((b2 - a2) / 2).natAbs).map fun (i : Nat) => (b1, a2 - 1 - 2 * (i : Int))
+      else (List.range ((b2 - a2) / 2).natAbs).map fun (i : Nat) => (b1, a2 + 1 + 2 * (i : Int))).map
+        (contrib R C p)) = xor (decide (p = (b1, a2))) (decide (p = (b1, b2))) := by
+    split
+    · have := run_left R C p (b1, a2) ((b2 - a2) / 2).natAbs hp hpb hmid hpmid (by simp only; omega)
+        (by simp only; omega)
+      simp only at this
+      rw [this, show a2 - 2 * (((b2 - a2) / 2).natAbs : Int) = b2 by omega]
+    · have := run_right R C p (b1, a2) ((b2 - a2) / 2).natAbs hp hpb hmid hpmid (by simp only; omega)
+        (by simp only; omega)
+      simp only at this
+      rw [this, show a2 + 2 * (((b2 - a2) / 2).natAbs : Int) = b2 by omega]
+  rw [hV, hH]
+  cases decide (p = (a1, a2)) <;> cases decide (p = (b1, a2)) <;> cases decide (p = (b1, b2)) <;> rfl
+
+/-! ### the plaquette index list -/
+
+/-- all indices of the `(2R−1) × (2C−1)` array in `np.ndindex` order -/
+def allIndices (R C : Int) : List (Int × Int) :=
+  (List.range (maxRow R + 1).toNat).flatMap fun (r : Nat) =>
+    (List.range (maxCol C + 1).toNat).map fun (c : Nat) => ((r : Int), (c : Int))
+
+theorem mem_allIndices (R C : Int) (p : Int × Int) : p ∈ allIndices R C ↔ inBounds R C p.1 p.2 = true := by
+  obtain ⟨p1, p2⟩ := p
+  simp only [allIndices, List.mem_flatMap, List.mem_map, List.mem_range, Prod.mk.injEq, inBounds_iff, maxRow, maxCol]
+  constructor
+  · rintro ⟨r, hr, c, hc, e1, e2⟩; omega
+  · intro h
+    exact ⟨p1.toNat, by omega, p2.toNat, by omega, by omega, by omega⟩
+
+theorem nodup_allIndices (R C : Int) : (allIndices R C).Nodup := by
+  unfold allIndices
+  rw [List.nodup_iff_pairwise_ne, List.pairwise_flatMap]
+  constructor
+  · intro r _
+    rw [List.pairwise_map]
+    exact List.Pairwise.imp (fun {a b} h e => by simp only [Prod.mk.injEq] at e; omega) List.pairwise_lt_range
+  · refine List.Pairwise.imp ?_ List.pairwise_lt_range
+    intro r r' h x hx y hy e
+    obtain ⟨c, _, ex⟩ := List.mem_map.1 hx
+    obtain ⟨c', _, ey⟩ := List.mem_map.1 hy
+    rw [← ex, ← ey, Prod.mk.injEq] at e
+    omega
+
+theorem plaquetteIndices_eq (R C : Int) :
+    plaquetteIndices R C =
+      ((allIndices R C).filter fun rc => isPlaquette rc.1 rc.2).filter (fun rc => isPrimal rc.1 rc.2) ++
+      ((allIndices R C).filter fun rc => isPlaquette rc.1 rc.2).filter (fun rc => !isPrimal rc.1 rc.2) := rfl
+
+/-- the code's plaquette index list contains exactly the in-lattice plaquette indices -/
+theorem mem_plaquetteIndices (R C : Int) (p : Int × Int) :
+    p ∈ plaquetteIndices R C ↔ isPlaquette p.1 p.2 = true ∧ inBounds R C p.1 p.2 = true := by
+  simp only [plaquetteIndices_eq, List.mem_append, List.mem_filter, mem_allIndices]
+  cases isPrimal p.1 p.2 <;> simp [and_comm]
+
+theorem nodup_plaquetteIndices (R C : Int) : (plaquetteIndices R C).Nodup := by
+  have h := nodup_allIndices R C
+  rw [List.nodup_iff_pairwise_ne] at h
+  rw [plaquetteIndices_eq, List.nodup_append]
+  refine ⟨?_, ?_, ?_⟩
+  · rw [List.nodup_iff_pairwise_ne]; exact (h.filter _).filter _
+  · rw [List.nodup_iff_pairwise_ne]; exact (h.filter _).filter _
+  · intro a ha b hb e
+    have h1 := (List.mem_filter.1 ha).2
+    have h2 := (List.mem_filter.1 hb).2
+    rw [e] at h1
+    simp [h1] at h2
+
+/-! ### translation and path -/
+
+theorem translation_exact (R C : Int) (a b : Int × Int)
+    (ha : isPlaquette a.1 a.2 = true) (hb : isPlaquette b.1 b.2 = true)
+    (hab : isPrimal a.1 a.2 = isPrimal b.1 b.2)
+    (h : inBounds R C a.1 a.2 = true ∨ inBounds R C b.1 b.2 = true) :
+    translation R C a b = .ok ((b.1 - a.1) / 2, (b.2 - a.2) / 2) := by
+  unfold translation
+  rw [ha, hb, hab]
+  rcases h with h | h <;> simp [h]
+
+theorem translation_zero (R C : Int) (a b : Int × Int)
+    (ha : isPlaquette a.1 a.2 = true) (hb : isPlaquette b.1 b.2 = true)
+    (hab : isPrimal a.1 a.2 = isPrimal b.1 b.2)
+    (h : inBounds R C a.1 a.2 = false) (h' : inBounds R C b.1 b.2 = false) :
+    translation R C a b = .ok (0, 0) := by
+  unfold translation
+  rw [ha, hb, hab, h, h']
+  simp
+
+/-- the type of operator a path from `a` applies / the generator of plaquette `p` consists of -/
+def pathOp (a : Int × Int) : P1 := if isPrimal a.1 a.2 then P1.X else P1.Z
+def plaqOp (p : Int × Int) : P1 := if isPrimal p.1 p.2 then P1.Z else P1.X
+
+theorem path_eq_of_translation (R C : Int) (v : BVec) (a b t : Int × Int) (h : translation R C a b = .ok t) :
+    path R C v a b = .ok (sites R C (pathOp a) v (pathSites a t.1 t.2)) := by
+  unfold path; rw [h]; rfl
+
+/-- **path/plaquette product**: for plaquette indices `a`, `b` of the same type within the box (rows −1 … 2R−1,
+    columns −1 … 2C−1), at least one of them in the lattice, the path operator anticommutes with the generator
+    of an in-lattice plaquette `p` iff `p` is exactly one of `a`, `b` -/
+theorem bsp_pathSites_plaquette (R C : Int) (hR : 2 ≤ R) (hC : 2 ≤ C) (a b p : Int × Int)
+    (ha : isPlaquette a.1 a.2 = true) (hb : isPlaquette b.1 b.2 = true)
+    (hab : isPrimal a.1 a.2 = isPrimal b.1 b.2) (hBa : Box R C a) (hBb : Box R C b)
+    (hp : isPlaquette p.1 p.2 = true) (hpb : inBounds R C p.1 p.2 = true) :
+    bsp (sites R C (pathOp a) (identity R C) (pathSites a ((b.1 - a.1) / 2) ((b.2 - a.2) / 2)))
+        (sites R C (plaqOp p) (identity R C) (plaquetteSites p.1 p.2)) =
+      xor (decide (p = a)) (decide (p = b)) := by
+  rw [bsp_sites_sites R C hR hC _ _ _ _ (allSites_pathSites _ _ _ ha) (allSites_plaquetteSites _ _ hp)]
+  by_cases hty : isPrimal p.1 p.2 = isPrimal a.1 a.2
+  · rw [common_pathSites R C a b p ha hb hab hBa hBb hp hpb hty]
+    unfold pathOp plaqOp
+    rw [hty]
+    cases isPrimal a.1 a.2 <;> simp [P1.anti]
+  · have hpa : ¬ p = a := fun e => hty (by rw [e])
+    have hpb' : ¬ p = b := fun e => hty (by rw [e, hab])
+    unfold pathOp plaqOp
+    have : P1.anti (if isPrimal a.1 a.2 then P1.X else P1.Z) (if isPrimal p.1 p.2 then P1.Z else P1.X) = false := by
+      revert hty
+      cases isPrimal a.1 a.2 <;> cases isPrimal p.1 p.2 <;> simp [P1.anti]
+    rw [this]
+    simp [hpa, hpb']
+
+/-! ### reading a unit syndrome back -/
+
+theorem filterMap_zip_false {α} (l : List α) (f : Nat → Bool) (h : ∀ j, j < l.length → f j = false) :
+    ((l.zip ((List.range l.length).map f)).filterMap fun p => if p.2 then some p.1 else none) = [] := by
+  induction l generalizing f with
+  | nil => simp
+  | cons x l ih =>
+    rw [List.length_cons, List.range_succ_eq_map, List.map_cons, List.map_map, List.zip_cons_cons,
+      List.filterMap_cons, h 0 (by simp)]
+    simp only [Bool.false_eq_true, if_false]
+    exact ih _ (fun j hj => h (j + 1) (by simpa using hj))
+
+/-- zipping a list with the `i`-th unit vector and keeping the flagged entries returns the `i`-th entry -/
+theorem filterMap_zip_unit {α} (l : List α) (f : Nat → Bool) (i : Nat) (hi : i < l.length)
+    (h : ∀ j, j < l.length → f j = decide (j = i)) :
+    ((l.zip ((List.range l.length).map f)).filterMap fun p => if p.2 then some p.1 else none) = [l[i]] := by
+  induction l generalizing f i with
+  | nil => simp at hi
+  | cons x l ih =>
+    rw [List.length_cons, List.range_succ_eq_map, List.map_cons, List.map_map, List.zip_cons_cons,
+      List.filterMap_cons, h 0 (by simp)]
+    cases i with
+    | zero =>
+      simp only [decide_true, if_true, List.getElem_cons_zero]
+      rw [filterMap_zip_false l _ (fun j hj => by
+        simp only [Function.comp, Nat.succ_eq_add_one]
+        rw [h (j + 1) (by simpa using hj)]; simp)]
+    | succ i =>
+      have : decide (0 = i + 1) = false := by simp
+      simp only [this, Bool.false_eq_true, if_false, List.getElem_cons_succ]
+      exact ih _ i (by simpa using hi) (fun j hj => by
+        simp only [Function.comp, Nat.succ_eq_add_one]
+        rw [h (j + 1) (by simpa using hj)]; simp)
+
+/-! ### weights -/
+
+theorem countP_id_eq_range (u : List Bool) :
+    u.countP id = (List.range u.length).countP fun i => u.getD i false := by
+  induction u with
+  | nil => rfl
+  | cons b u ih =>
+    rw [List.length_cons, List.range_succ_eq_map, List.countP_cons, List.countP_cons, List.countP_map, ih]
+    simp only [id, List.getD_cons_zero]
+    congr 1
+
+theorem getD_zipWith_or (x z : BVec) (h : x.length = z.length) (i : Nat) :
+    (List.zipWith or x z).getD i false = (x.getD i false || z.getD i false) := by
+  simp only [List.getD_eq_getElem?_getD, List.getElem?_zipWith]
+  by_cases hi : i < x.length
+  · rw [List.getElem?_eq_getElem hi, List.getElem?_eq_getElem (by omega)]; rfl
+  · rw [List.getElem?_eq_none (by omega), List.getElem?_eq_none (by omega)]; rfl
+
+/-- `bsf_wt` counts the qubits with a set X or Z bit -/
+theorem bsfWt_eq_countP (v : BVec) (n : Nat) (hv : v.length = 2 * n) :
+    bsfWt v = (List.range n).countP fun i => v.getD i false || v.getD (n + i) false := by
+  have hx : (xHalf v).length = n := by rw [xHalf_length, hv]; omega
+  have hz : (zHalf v).length = n := by rw [zHalf_length, hv]; omega
+  unfold bsfWt
+  rw [countP_id_eq_range, List.length_zipWith, hx, hz, Nat.min_self]
+  apply List.countP_congr
+  intro i hi
+  rw [List.mem_range] at hi
+  rw [getD_zipWith_or _ _ (by omega), getD_xHalf v n i hv hi, getD_zHalf v n i hv]
+
+theorem countP_range_update (n f : Nat) (p p' : Nat → Bool) (hf : f < n)
+    (h : ∀ i, i < n → i ≠ f → p' i = p i) :
+    (List.range n).countP p' + (if p f = true then 1 else 0) =
+      (List.range n).countP p + (if p' f = true then 1 else 0) := by
+  induction n with
+  | zero => omega
+  | succ n ih =>
+    rw [List.range_succ, List.countP_append, List.countP_append]
+    simp only [List.countP_cons, List.countP_nil, Nat.zero_add]
+    by_cases hfn : f = n
+    · subst hfn
+      have : (List.range f).countP p' = (List.range f).countP p :=
+        List.countP_congr (fun i hi => by rw [List.mem_range] at hi; rw [h i (by omega) (by omega)])
+      rw [this]; omega
+    · have := ih (by omega) (fun i hi hne => h i (by omega) hne)
+      rw [h n (by omega) (fun e => hfn e.symm)]
+      omega
+
+/-- how `bsf_wt` changes when one qubit `f < n` is acted on: the predicate "qubit i is non-trivial" is
+    unchanged away from `f` -/
+theorem bsfWt_applyOp (n : Nat) (op : P1) (v : BVec) (hv : v.length = 2 * n) (f : Nat) (hf : f < n) :
+    bsfWt (applyOp n op v f) + (if (v.getD f false || v.getD (n + f) false) = true then 1 else 0) =
+      bsfWt v + (if ((applyOp n op v f).getD f false || (applyOp n op v f).getD (n + f) false) = true
+        then 1 else 0) := by
+  rw [bsfWt_eq_countP v n hv, bsfWt_eq_countP _ n (by simpa using hv)]
+  apply countP_range_update n f _ _ hf
+  intro i hi hne
+  rw [getD_applyOp _ _ _ _ _ (by omega), getD_applyOp _ _ _ _ _ (by omega)]
+  have e1 : decide (f = i) = false := decide_eq_false (fun e => hne e.symm)
+  have e2 : decide (n + f = i) = false := decide_eq_false (by omega)
+  have e3 : decide (f = n + i) = false := decide_eq_false (by omega)
+  have e4 : decide (n + f = n + i) = false := decide_eq_false (by omega)
+  rw [e1, e2, e3, e4]; simp
+
+theorem bsfWt_applyOp_le (n : Nat) (op : P1) (v : BVec) (hv : v.length = 2 * n) (f : Nat) (hf : f < n) :
+    bsfWt (applyOp n op v f) ≤ bsfWt v + 1 := by
+  have := bsfWt_applyOp n op v hv f hf
+  revert this
+  split <;> split <;> omega
+
+theorem bsfWt_applyOp_eq (n : Nat) (op : P1) (hop : op ≠ P1.I) (v : BVec) (hv : v.length = 2 * n) (f : Nat)
+    (hf : f < n) (h1 : v.getD f false = false) (h2 : v.getD (n + f) false = false) :
+    bsfWt (applyOp n op v f) = bsfWt v + 1 := by
+  have := bsfWt_applyOp n op v hv f hf
+  rw [getD_applyOp _ _ _ _ _ (by omega), getD_applyOp _ _ _ _ _ (by omega), h1, h2] at this
+  have e3 : decide (f = n + f) = false := decide_eq_false (by omega)
+  have e2 : decide (n + f = f) = false := decide_eq_false (by omega)
+  rw [e2, e3] at this
+  have e : (false ^^ (op.xBit && decide (f = f) ^^ (op.zBit && false)) ||
+      (false ^^ (op.xBit && false ^^ (op.zBit && decide (n + f = n + f))))) = true := by
+    cases op <;> simp [P1.xBit, P1.zBit] at hop ⊢
+  rw [e] at this
+  simpa using this
+
+/-- a site-operator on `k` sites has weight at most `k` more than what it is applied to -/
+theorem bsfWt_sites_le (R C : Int) (hR : 2 ≤ R) (hC : 2 ≤ C) (op : P1) (v : BVec)
+    (hv : v.length = 2 * (nQubits R C).toNat) (l : List (Int × Int)) (hl : AllSites l) :
+    bsfWt (sites R C op v l) ≤ bsfWt v + l.length := by
+  induction l generalizing v with
+  | nil => simp
+  | cons s l ih =>
+    rw [sites_cons]
+    have h1 := ih (site R C op v s) (by simpa using hv) hl.cons.2
+    have h2 : bsfWt (site R C op v s) ≤ bsfWt v + 1 := by
+      unfold site
+      split
+      · next hb => exact bsfWt_applyOp_le _ op v hv _ (flatten_toNat_lt R C _ _ hR hC hl.cons.1 hb)
+      · omega
+    rw [List.length_cons]; omega
+
+/-- a non-identity site-operator on duplicate-free in-lattice sites, applied to a vector that is trivial on
+    them, adds exactly their number to the weight -/
+theorem bsfWt_sites_eq (R C : Int) (hR : 2 ≤ R) (hC : 2 ≤ C) (op : P1) (hop : op ≠ P1.I) (v : BVec)
+    (hv : v.length = 2 * (nQubits R C).toNat) (l : List (Int × Int)) (hl : AllSites l)
+    (hb : ∀ s ∈ l, inBounds R C s.1 s.2 = true) (hnd : l.Nodup)
+    (h0 : ∀ s ∈ l, v.getD (flatten R C s.1 s.2).toNat false = false ∧
+      v.getD ((nQubits R C).toNat + (flatten R C s.1 s.2).toNat) false = false) :
+    bsfWt (sites R C op v l) = bsfWt v + l.length := by
+  induction l generalizing v with
+  | nil => simp
+  | cons s l ih =>
+    rw [List.nodup_cons] at hnd
+    have hsb := hb s (by simp)
+    have hf := flatten_toNat_lt R C _ _ hR hC hl.cons.1 hsb
+    have e : site R C op v s = applyOp (nQubits R C).toNat op v (flatten R C s.1 s.2).toNat := by
+      unfold site; rw [if_pos hsb]
+    rw [sites_cons, ih (site R C op v s) (by simpa using hv) hl.cons.2 (fun t ht => hb t (by simp [ht])) hnd.2,
+      e, bsfWt_applyOp_eq _ op hop v hv _ hf (h0 s (by simp)).1 (h0 s (by simp)).2, List.length_cons]
+    · omega
+    · intro t ht
+      have htb := hb t (by simp [ht])
+      have hft := flatten_toNat_lt R C _ _ hR hC (hl t (by simp [ht])) htb
+      have hne : (flatten R C s.1 s.2).toNat ≠ (flatten R C t.1 t.2).toNat := by
+        intro e'
+        have := flatten_toNat_inj R C hR hC s t hl.cons.1 hsb (hl t (by simp [ht])) htb e'
+        rw [this] at hnd
+        exact hnd.1 ht
+      rw [e, getD_applyOp _ _ _ _ _ (by omega), getD_applyOp _ _ _ _ _ (by omega),
+        (h0 t (by simp [ht])).1, (h0 t (by simp [ht])).2]
+      have e1 : decide ((flatten R C s.1 s.2).toNat = (flatten R C t.1 t.2).toNat) = false := decide_eq_false hne
+      have e2 : decide ((nQubits R C).toNat + (flatten R C s.1 s.2).toNat = (flatten R C t.1 t.2).toNat) = false :=
+        decide_eq_false (by omega)
+      have e3 : decide ((flatten R C s.1 s.2).toNat = (nQubits R C).toNat + (flatten R C t.1 t.2).toNat) = false :=
+        decide_eq_false (by omega)
+      have e4 : decide ((nQubits R C).toNat + (flatten R C s.1 s.2).toNat =
+          (nQubits R C).toNat + (flatten R C t.1 t.2).toNat) = false := decide_eq_false (by omega)
+      rw [e1, e2, e3, e4]; simp
+
+theorem bsfWt_identity (R C : Int) : bsfWt (identity R C) = 0 := by
+  rw [bsfWt_eq_countP _ _ (identity_length R C), List.countP_eq_zero]
+  intro i _
+  rw [getD_identity, getD_identity]; simp
+
+theorem nodup_pathSites (a : Int × Int) (rs cs : Int) : (pathSites a rs cs).Nodup := by
+  simp only [pathSites]
+  rw [List.nodup_append]
+  refine ⟨?_, ?_, ?_⟩
+  · split <;>
+    · rw [List.nodup_iff_pairwise_ne, List.pairwise_map]
+      exact List.Pairwise.imp (fun {i j} h e => by simp only [Prod.mk.injEq] at e; omega) List.pairwise_lt_range
+  · split <;>
+    · rw [List.nodup_iff_pairwise_ne, List.pairwise_map]
+      exact List.Pairwise.imp (fun {i j} h e => by simp only [Prod.mk.injEq] at e; omega) List.pairwise_lt_range
+  · intro x hx y hy e
+    split at hx <;> split at hy <;>
+    · obtain ⟨i, _, ex⟩ := List.mem_map.1 hx
+      obtain ⟨j, _, ey⟩ := List.mem_map.1 hy
+      rw [← ex, ← ey, Prod.mk.injEq] at e
+      omega
+
+/-- between two in-lattice plaquettes of the same type every site of the path is in the lattice -/
+theorem inBounds_pathSites (R C : Int) (a b : Int × Int)
+    (ha : isPlaquette a.1 a.2 = true) (hb : isPlaquette b.1 b.2 = true)
+    (hab : isPrimal a.1 a.2 = isPrimal b.1 b.2)
+    (hia : inBounds R C a.1 a.2 = true) (hib : inBounds R C b.1 b.2 = true) :
+    ∀ s ∈ pathSites a ((b.1 - a.1) / 2) ((b.2 - a.2) / 2), inBounds R C s.1 s.2 = true := by
+  rw [isPlaquette_iff] at ha hb
+  rw [isPrimal_eq_iff] at hab
+  rw [inBounds_iff] at hia hib
+  intro s hs
+  rw [inBounds_iff]
+  simp only [pathSites, List.mem_append] at hs
+  rcases hs with hs | hs
+  · split at hs <;>
+    · obtain ⟨i, hi, e⟩ := List.mem_map.1 hs
+      rw [List.mem_range] at hi
+      rw [← e]; simp only; omega
+  · split at hs <;>
+    · obtain ⟨i, hi, e⟩ := List.mem_map.1 hs
+      rw [List.mem_range] at hi
+      rw [← e]; simp only; omega
+
+/-- weight of the path operator between two in-lattice plaquettes of the same type -/
+theorem bsfWt_pathSites (R C : Int) (hR : 2 ≤ R) (hC : 2 ≤ C) (a b : Int × Int)
+    (ha : isPlaquette a.1 a.2 = true) (hb : isPlaquette b.1 b.2 = true)
+    (hab : isPrimal a.1 a.2 = isPrimal b.1 b.2)
+    (hia : inBounds R C a.1 a.2 = true) (hib : inBounds R C b.1 b.2 = true) :
+    bsfWt (sites R C (pathOp a) (identity R C) (pathSites a ((b.1 - a.1) / 2) ((b.2 - a.2) / 2))) =
+      ((b.1 - a.1) / 2).natAbs + ((b.2 - a.2) / 2).natAbs := by
+  rw [bsfWt_sites_eq R C hR hC (pathOp a) (by unfold pathOp; split <;> decide) _ (identity_length R C) _
+    (allSites_pathSites _ _ _ ha) (inBounds_pathSites R C a b ha hb hab hia hib) (nodup_pathSites _ _ _)
+    (fun s _ => ⟨getD_identity _ _ _, getD_identity _ _ _⟩), bsfWt_identity, length_pathSites]
+  omega
+
+/-! ### read-back of a site-operator -/
+
+theorem nodup_plaquetteSites (r c : Int) : (plaquetteSites r c).Nodup := by
+  simp only [plaquetteSites, List.nodup_cons, List.mem_cons, Prod.mk.injEq, List.not_mem_nil, or_false,
+    not_false_eq_true, List.nodup_nil, and_true]
+  omega
+
+theorem occ_eq_mem (l : List (Int × Int)) (h : l.Nodup) (s : Int × Int) : occ l s = decide (s ∈ l) := by
+  rw [occ, par_map_decide_eq l s h]
+  exact decide_eq_decide.mpr Iff.rfl
+
+/-- `operator(index)` of a site-operator built from the identity, at an in-lattice site -/
+theorem operatorAt_sites (R C : Int) (hR : 2 ≤ R) (hC : 2 ≤ C) (op : P1) (l : List (Int × Int)) (hl : AllSites l)
+    (s : Int × Int) (hs : isSite s.1 s.2 = true) (hb : inBounds R C s.1 s.2 = true) :
+    operatorAt R C (sites R C op (identity R C) l) s.1 s.2 =
+      P1.ofBits (op.xBit && occ l s) (op.zBit && occ l s) := by
+  unfold operatorAt
+  simp only
+  rw [getD_sites_x R C hR hC op l hl s hs hb, getD_sites_z R C hR hC op l hl s hs hb]
+
+/-! ### stabilizers and logicals as site-operators (for C07 / C02) -/
+
+theorem stabilizers_eq_map (R C : Int) :
+    stabilizers R C = (plaquetteIndices R C).map fun p =>
+      sites R C (plaqOp p) (identity R C) (plaquetteSites p.1 p.2) := rfl
+
+theorem sites_identity_length (R C : Int) (op : P1) (l : List (Int × Int)) :
+    (sites R C op (identity R C) l).length = 2 * (nQubits R C).toNat := by
+  rw [sites_length, identity_length]
+
+/-- two plaquette generators: product = (types anticommute) ∧ (odd number of shared in-lattice sites) -/
+theorem bsp_plaquette_plaquette (R C : Int) (hR : 2 ≤ R) (hC : 2 ≤ C) (p q : Int × Int)
+    (hp : isPlaquette p.1 p.2 = true) (hq : isPlaquette q.1 q.2 = true) :
+    bsp (sites R C (plaqOp p) (identity R C) (plaquetteSites p.1 p.2))
+        (sites R C (plaqOp q) (identity R C) (plaquetteSites q.1 q.2)) =
+      (P1.anti (plaqOp p) (plaqOp q) && common R C (plaquetteSites p.1 p.2) (plaquetteSites q.1 q.2)) :=
+  bsp_sites_sites R C hR hC _ _ _ _ (allSites_plaquetteSites _ _ hp) (allSites_plaquetteSites _ _ hq)
+
+theorem allSites_logicalXSites (R C : Int) : AllSites (logicalXSites R C) := by
+  intro s hs
+  obtain ⟨i, _, e⟩ := List.mem_map.1 hs
+  rw [← e, isSite_iff]; simp only [maxCol]; omega
+
+theorem allSites_logicalZSites (R C : Int) : AllSites (logicalZSites R C) := by
+  intro s hs
+  obtain ⟨i, _, e⟩ := List.mem_map.1 hs
+  rw [← e, isSite_iff]; simp only [maxRow]; omega
+
 end Qec.Planar
